@@ -39,7 +39,7 @@ Color == [name |-> "Color", kind |-> "enum", fields |-> <<>>, base |-> "string",
 Names == [name |-> "Names", kind |-> "array", fields |-> <<>>, base |-> "string", vals |-> <<>>]
 
 Doc == [types |-> types, eps |-> eps]
-Emit == PrintT(<<"SCN", ToJson([openapi |-> Doc, xsd |-> XsdDoc(Doc), sql |-> SqlDoc(Doc), export |-> ExportDoc(Doc)])>>)
+Emit == PrintT(<<"SCN", ToJson([openapi |-> Doc, xsd |-> XsdDoc(Doc), sql |-> SqlDoc(Doc), export |-> ExportDoc(Doc), avro |-> AvroDoc(Doc), proto |-> ProtoDoc(Doc)])>>)
 R(S) == RandomElement(S)
 Coin(n) == RandomElement(1..n) = 1
 
